@@ -291,6 +291,81 @@ def scen_estimator(cfg):
     return scenario
 
 
+def scen_estimator_init(cfg):
+    """GMMEstimator.__init__ on a data stand-in whose entries, mean and standard deviation are solver variables: the normalisation it fits on is the
+    exact inverse of the map _rescale/get_dist use to go back to the units of the data (x_norm * std + mean == x), for every std above the
+    determinism threshold -- otherwise fitted scales and offsets come back shrunk or stretched"""
+    n = cfg["n"]
+
+    def scenario(V):
+        import numpy as onp
+        from rex.gmm_estimator import GMMEstimator
+        from vlib.pysym import SymBool, T
+
+        if not V.symbolic:
+            return _concrete_estimator_init()
+        sd = V.anyreal("std", lo=0, hi=10)
+        xs = [V.anyreal(f"x{i}", lo=0, hi=10) for i in range(n)]
+        mu = sum(xs[1:], xs[0]) / n
+
+        class _Data:
+            """1-D delay data; its statistics are symbols (std is not derived from the entries: any positive value is allowed, which over-approximates)"""
+            def __init__(self, cells):
+                self.cells = onp.array(cells, dtype=object)
+
+            def astype(self, dt):
+                return self
+
+            def mean(self, *a, **k):
+                return mu
+
+            def std(self, *a, **k):
+                return sd
+
+            def __sub__(self, o):
+                return self.cells - o
+
+        est = GMMEstimator(_Data(xs), name="verif", verbose=False)
+        if est.is_deterministic:
+            return {"data with std below the threshold is treated as deterministic": SymBool(T(sd) < Fraction(1, 10**7)), "twin:deterministic data": True}
+        norm = list(onp.asarray(est._data_norm, dtype=object).reshape(-1))
+        return {"the estimator fits on data normalised by exactly the mean and std it later rescales with: x_norm * std + mean == x": SymBool(z3.And(*[T(norm[i] * est._std + est._mean) == T(xs[i]) for i in range(n)])),
+                "twin:jitter at the 10-microsecond level": SymBool(T(sd) < Fraction(1, 10**4))}
+
+    return scenario
+
+
+def _concrete_estimator_init():
+    """replay on the real constructor with float data of several spreads (the solver's std symbol is not tied to the entries, so its numbers are not a dataset)"""
+    import numpy as onp
+    from rex.gmm_estimator import GMMEstimator
+
+    name = "the estimator fits on data normalised by exactly the mean and std it later rescales with: x_norm * std + mean == x"
+    ok = True
+    for centre, spread in ((1e-3, 2e-5), (5e-3, 1e-4), (0.02, 1e-3), (2.0, 1.0)):
+        data = (centre + spread * onp.array([-1.5, -1.0, -0.2, 0.0, 0.3, 1.0, 1.4])).astype(onp.float32)
+        est = GMMEstimator(data, name="replay", verbose=False)
+        if est.is_deterministic:
+            continue
+        back = onp.asarray(est._data_norm, onp.float64) * float(est._std) + float(est._mean)
+        ok = ok and bool(onp.all(onp.abs(back - data.astype(onp.float64)) <= 1e-3 * float(onp.std(data))))
+    return {name: ok}
+
+
+def worker_estimator_init(cfg, tier):
+    import rex.gmm_estimator as G
+    from props.c03 import _to_obs
+    from vlib import pysym
+
+    res, stats = pysym.run_scenario(scen_estimator_init(cfg), [G], extra_patch={"rex.gmm_estimator": {"np": pysym.ObjNumpy()}}, timeout_ms=30000, patch_names=())
+    keymap = {r["name"]: "estimator-init" for r in res}
+    whatmap = {r["name"]: f"GMMEstimator.__init__: {r['name']} -- violated" for r in res}
+    obs, stats = _to_obs(res, stats, cfg, "estimator-init", keymap, whatmap)
+    if obs:
+        obs[0].detail = {"stats": stats}
+    return obs
+
+
 def worker_estimator(cfg, tier):
     import rex.gmm_estimator as G
     from props.c03 import _to_obs
@@ -325,7 +400,7 @@ def run(rep):
     rep.assumptions = ["the underlying distribution returns arbitrary real samples as a function of its seed", "ndtri uninterpreted, axiom: strictly increasing",
                        "RESTRICTED: mixture quantiles (numpy grid search over a distrax CDF), agreement of the Normal quantile with the CDF and the fitting loop of the GMM estimator "
                        "(an optimisation) are not encodable and not claimed; default expected delay = quantile(0.99) >= 0 is checked with C16's node harness",
-                       "GMM estimator: only the export path (_rescale, get_dist, normalize_weights) from arbitrary fitted parameters, data mean in [0,10], data std in [1e-7,10], "
+                       "GMM estimator: the constructor's normalisation (data entries, mean and std as symbols; std not tied to the entries) and the export path (_rescale, get_dist, normalize_weights) from arbitrary fitted parameters, data mean in [0,10], data std in [1e-7,10], "
                        "K <= 2 (3) components; exp/log uninterpreted with the axiom exp > 0"]
     rep.stubs = ["jax.scipy.special.ndtri -> oracle callback during tracing of the Normal quantile",
                  "estimator: jax.numpy -> object-array stand-in (exp/log uninterpreted, argsort/maximum by solver-checked comparisons), distrax/StaticDist.create -> recorders, adam_get_params -> the symbolic parameters"]
@@ -337,6 +412,8 @@ def run(rep):
         ecfg += [dict(K=3, percentile=0.9), dict(K=3, percentile=0.99)]
     rep.configs = list(cfgs) + ecfg
     obs += pmap("props.c15", "worker_estimator", ecfg, rep.tier)
+    rep.encode(gmm_estimator.GMMEstimator.__init__)
+    obs += pmap("props.c15", "worker_estimator_init", [dict(n=2), dict(n=3)], rep.tier)
     rep.add_all(obs)
 
 
